@@ -317,6 +317,12 @@ class Executor:
 
     def extra_ensures(self, st, val):
         ex = {'result': val.e if val is not None and val.e is not None else 'none'}
+        for mk, mv in (val.meta.items() if val is not None else ()):
+            # components of a structured result: {result.head}, {result.body}, ...
+            if isinstance(mv, SV) and mv.e is not None:
+                ex['result.' + mk] = mv.e
+            elif isinstance(mv, str):
+                ex['result.' + mk] = mv
         for i, e in enumerate(self.c.ensures):
             self.oblige(st, 'ensures%d' % i, self.fmt(e, st, ex))
 
@@ -1060,7 +1066,24 @@ class Executor:
             # a local that is not assigned on this path: UnboundLocalError
             self.oblige(st.fork().tag('unbound:' + e.id), 'safety.unbound_local', 'false', 'safety')
             return []
+        # module-level constant NAME = re.compile(<string constant>), assigned exactly once: a compiled pattern
+        from . import core as _core
+        assigns = [n for n in _core.module(self.modname).tree.body if isinstance(n, ast.Assign)
+                   and any(isinstance(t, ast.Name) and t.id == e.id for t in n.targets)]
+        if len(assigns) == 1 and isinstance(assigns[0].value, ast.Call) and ast.unparse(assigns[0].value.func) == 're.compile' \
+                and len(assigns[0].value.args) == 1 and isinstance(assigns[0].value.args[0], ast.Constant) \
+                and isinstance(assigns[0].value.args[0].value, str) and not assigns[0].value.keywords \
+                and not self.rebinds_global(e.id):
+            return [(st, SV('Regex', None, {'pattern': assigns[0].value.args[0].value}))]
         raise OutOfSubset('global name %s' % e.id, e)
+
+    def rebinds_global(self, name):
+        """is the module-level name assigned anywhere else (a `global` statement in some function)?"""
+        from . import core as _core
+        for n in ast.walk(_core.module(self.modname).tree):
+            if isinstance(n, ast.Global) and name in n.names:
+                return True
+        return False
 
     def ev_List(self, e, st):
         outs = [(st, [])]
@@ -1391,6 +1414,23 @@ class Executor:
         if e.keywords and not (self.theory and self.theory.accept_keywords(self, e)):
             raise OutOfSubset('keyword arguments', e)
         f = e.func
+        if isinstance(f, ast.Attribute) and isinstance(f.value, ast.Name) and f.value.id == 're' and f.attr in ('fullmatch', 'match', 'search') \
+                and len(e.args) == 2 and isinstance(e.args[0], ast.Constant) and isinstance(e.args[0].value, str) and not e.keywords:
+            # the match object is only ever tested for truth: its truth value is membership in the translated regular language
+            from . import pyre
+            try:
+                rx = pyre.translate(e.args[0].value, f.attr)
+            except pyre.Unsupported as u:
+                raise OutOfSubset('regular expression: %s' % u, e)
+            outs = []
+            for st2, v in self.eval(e.args[1], st):
+                if isinstance(v, Exc):
+                    outs.append((st2, v))
+                elif v.sort != 'Str':
+                    raise OutOfSubset('re.%s on %s' % (f.attr, v.sort), e)
+                else:
+                    outs.append((st2, SV('Bool', '(str.in_re %s %s)' % (v.e, rx))))
+            return outs
         if self.theory:
             r = self.theory.call_name_ast(self, e, st)
             if r is not None:
@@ -1524,6 +1564,13 @@ class Executor:
     TERM_CLASSES = [('TAtom', 'Atom'), ('TVar', 'Variable'), ('TFun', 'Functor')]
 
     def apply_method(self, e, base, meth, args, st):
+        if base.sort == 'Regex' and meth in ('fullmatch', 'match', 'search') and len(args) == 1 and args[0].sort == 'Str':
+            from . import pyre
+            try:
+                rx = pyre.translate(base.meta['pattern'], meth)
+            except pyre.Unsupported as u:
+                raise OutOfSubset('regular expression: %s' % u, e)
+            return [(st, SV('Bool', '(str.in_re %s %s)' % (args[0].e, rx)))]
         if base.sort in ('Iter', 'OptIter') and meth == 'close' and not args:
             if base.sort == 'OptIter':
                 self.oblige(st, 'safety.close_on_none', NOT(EQ(base.e, '(- 1)')), 'safety')
